@@ -8,6 +8,10 @@ import (
 
 const roomSigil = '!'
 
+// maxRoomIDLength is the largest number of bytes a room ID may have, sigil and
+// domain included.
+const maxRoomIDLength = 255
+
 var domainlessRoomIDRegexp = regexp.MustCompile(`^[A-Za-z0-9_-]{43}$`)
 
 // A RoomID identifies a matrix room as per the matrix specification
@@ -45,6 +49,9 @@ func parseAndValidateRoomID(id string) (*RoomID, error) {
 	idLength := len(id)
 	if idLength < 4 { // 4 since minimum roomID includes an !, :, non-empty opaque ID, non-empty domain
 		return nil, fmt.Errorf("length %d is too short to be valid", idLength)
+	}
+	if idLength > maxRoomIDLength {
+		return nil, fmt.Errorf("length %d is greater than the max allowed length of %d", idLength, maxRoomIDLength)
 	}
 	if id[0] != roomSigil {
 		return nil, fmt.Errorf("first character is not '%c'", roomSigil)
